@@ -5,7 +5,7 @@ SRC/verify.txt (produced by tools/verify_seed.sh). Refuses unless build OK, demo
 import sys, os, shutil, glob, json, re
 pid, sk, dk = sys.argv[1:4]
 force = len(sys.argv) > 4 and sys.argv[4] == "--force"
-src = os.environ.get("SEEDROOT", "/tmp/seedwork4") + "/%s/out/%s" % (pid, sk)
+src = os.environ.get("SEEDROOT", "/tmp/seedwork5") + "/%s/out/%s" % (pid, sk)
 dst = "/verif/seeded/%s-%s" % (pid, dk)
 res = open(os.path.join(src, "verify.txt")).read()
 def grab(key):
